@@ -14,7 +14,7 @@ def _resname(i):
 
 
 def gen_restype(g, name, atypes, idx, allow_vs=True, allow_angles=True, max_atoms=4, shape=None, impossible_p=0.0,
-                vs_p=0.25, improper_p=0.0, strained_p=0.0):
+                vs_p=0.25, improper_p=0.0, strained_p=0.0, conflict_p=0.0):
     """One residue type: 1..max_atoms uniquely named atoms joined by bonds/constraints
     (tree or ring), optional angles, optional virtual site."""
     n = g.randint(1, max_atoms)
@@ -64,6 +64,18 @@ def gen_restype(g, name, atypes, idx, allow_vs=True, allow_angles=True, max_atom
         else:
             quad = [0, 1, 2, 3]
         impropers.append([quad[0], quad[1], quad[2], quad[3], g.choice([35.26, -35.26, 20.0, -25.0]), 300])
+    conflict = False
+    if conflict_p and n == 4 and not impossible and g.random() < conflict_p:
+        # a centre bound to three atoms with planar 120 degree angles AND a strongly pyramidal improper: the stage
+        # without dihedrals converges, the stage with the improper cannot meet all targets (decided only when the
+        # guard is drawn last, so other profiles consume the same stream)
+        b = round(g.uniform(0.14, 0.3), 3)
+        bonds[:] = [[0, 1, b, 100000], [0, 2, b, 100000], [0, 3, b, 100000]]
+        constraints[:] = []
+        angles[:] = [[1, 0, 2, 120, 500], [1, 0, 3, 120, 500], [2, 0, 3, 120, 500]]
+        impropers[:] = [[0, 1, 2, 3, g.choice([60.0, -60.0, 55.0]), 200]]
+        shape = "tree"
+        conflict = True
     strained = False
     if n == 4 and shape == "ring" and not impossible and g.random() < strained_p:
         # four bonds of length b around the ring and a diagonal constraint slightly longer than 2b: the optimum leaves
@@ -113,7 +125,7 @@ def gen_restype(g, name, atypes, idx, allow_vs=True, allow_angles=True, max_atom
         pass
     return {"vs3_before_vs2": len(vsites) == 2, "vs_zero_mass": bool(vsites) and g.random() < 0.5, "name": name, "atoms": atoms, "bonds": bonds, "constraints": constraints,
             "angles": angles, "vsites": vsites, "blen": blen, "impossible": impossible, "impropers": impropers,
-            "strained": strained}
+            "strained": strained, "conflict": conflict}
 
 
 # ----------------------------------------------------------------------------- molecule types
@@ -248,10 +260,17 @@ def render_itp(mt, restypes, atype_mass, with_mass=True):
     if any(rts[r].get("vs3_before_vs2") for r in set(mt["residues"])):
         names = ["bonds", "constraints", "angles", "dihedrals", "virtual_sitesn", "virtual_sites3", "virtual_sites2",
                  "virtual_sites4"]
+    shuffle = mt.get("section_shuffle")
     for name in names:
         if sec[name]:
             out.append(f"[ {name} ]")
-            out.extend(sec[name])
+            lines = list(sec[name])
+            if shuffle is not None:
+                # GROMACS does not care about the order of the lines inside a directive: entries of later residues
+                # (and the bonds between residues) may precede those of the first residue
+                import random as _random
+                _random.Random(f"{shuffle}:{name}").shuffle(lines)
+            out.extend(lines)
     return "\n".join(out) + "\n"
 
 
@@ -268,10 +287,26 @@ def render_top(spec):
     mass = {a["name"]: a["mass"] for a in spec["atypes"]}
     files = {}
     for mt in spec["moltypes"]:
-        if spec.get("split_files") and mt is not spec["moltypes"][0]:
+        if spec.get("split_files") and (mt is not spec["moltypes"][0] or spec.get("split_all")):
             fname = f"{mt['name']}.itp"
             files[fname] = render_itp(mt, spec["restypes"], mass, spec.get("with_mass", True))
-            out.append(f'#include "{fname}"')
+            ci = spec.get("cond_include")
+            if ci and mt is spec["moltypes"][-1] and len(spec["moltypes"]) >= 2:
+                # the include sits in a top-level #ifdef/#ifndef ... #else ... #endif; the de-selected branch includes
+                # another description of the same moleculetype name
+                alt_name = f"{mt['name']}_alt.itp"
+                files[alt_name] = render_itp(ci["alt"], spec["restypes"], mass, spec.get("with_mass", True))
+                first_active = (ci["kind"] == "ifdef") == bool(ci["defined"])
+                if ci["defined"]:
+                    out.append(f"#define {ci['flag']}")
+                out.append(f"#{ci['kind']} {ci['flag']}")
+                out.append(f'#include "{fname if first_active else alt_name}"')
+                if ci.get("with_else", True):
+                    out.append("#else")
+                    out.append(f'#include "{alt_name if first_active else fname}"')
+                out.append("#endif")
+            else:
+                out.append(f'#include "{fname}"')
         else:
             out.append(render_itp(mt, spec["restypes"], mass, spec.get("with_mass", True)).rstrip("\n"))
     out += ["[ system ]", "verif", "[ molecules ]"]
@@ -321,7 +356,8 @@ def gen_system(g, profile):
                                    max_atoms=profile.get("max_atoms", 4),
                                    shape=g.choice(profile["res_shapes"]) if profile.get("res_shapes") else None,
                                    impossible_p=profile.get("impossible_p", 0.0), vs_p=profile.get("vs_p", 0.25),
-                                   improper_p=profile.get("improper_p", 0.0), strained_p=profile.get("strained_p", 0.0))
+                                   improper_p=profile.get("improper_p", 0.0), strained_p=profile.get("strained_p", 0.0),
+                                   conflict_p=profile.get("conflict_p", 0.0))
     if g.random() < profile.get("sol_p", 0.0):
         # the GROMACS default water residue name (some coordinate readers drop it by default)
         last = sorted(restypes)[-1]
